@@ -70,7 +70,7 @@ func init() {
 
 	vlib.Register(&vlib.Check{
 		ID: "C19", Engine: "E2",
-		Rule: "program = one command from an explicit allow-list of 98 data/structural builtins (index, element, range, lists, mkarray, format, cast, tout, args, config, set/global, escape family, json tools, count, match/regexp, alter, struct-keys, switch/if/foreach/try family, test …) x every argument tuple of arity <= A over {empty string, -1, -5, 0, 99999999999999999999, --bad, {, [, ], a, null, [1,2], {\"a\":1}} passed verbatim through variables (quick A=1, plus A=2 for the builtins that need two arguments: args tout alter config test map set cast format; thorough A=2 for all) x mode {function without stdin; method fed by {empty, two lines, JSON array, JSON object}} x scope parameters {none, --bad, -1 (thorough also: a; --bad a)}; each run in-process on its own goroutine with fd 2 captured and a 5 s ceiling (a hang is re-run with 20 s before it is believed; after a hang the remaining cases of the same builtin/arity/mode/scope class are skipped and counted); plus every sequence of <= 3 (thorough <= 4) commands over {pipe a, !pipe a, pipe b, !pipe b} run in a child murex process built from the working tree which then waits 3 s (the close grace period) and must still print `alive`. Oracle: the run returns control; no 'panic caught', no 'Murex has crashed', no Go panic trace; exit number != 0 whenever stderr carries a murex error report (`Error in`); child process exits normally. non-trivial = the command reported an error or produced output on stderr (an error path was executed) or the case is a pipe sequence with at least one close",
+		Rule: "program = one command from an explicit allow-list of 96 data/structural builtins (index, element, range, lists, mkarray, format, cast, tout, args, config, set/global, escape family, json tools, count, match/regexp, alter, struct-keys, switch/if/foreach/try family, test …) x every argument tuple of arity <= A over {empty string, -1, -5, 0, 99999999999999999999, --bad, {, [, ], a, null, [1,2], {\"a\":1}} passed verbatim through variables (quick A=1, plus A=2 for the builtins that need two arguments: args tout alter config test map set cast format; thorough A=2 for all) x mode {function without stdin; method fed by {empty, two lines, JSON array, JSON object}} x scope parameters {none, --bad, -1 (thorough also: a; --bad a)}; each run in-process on its own goroutine with fd 2 captured and a 5 s ceiling (a time-out without a crash report on fd 2 is re-run with 20 s before it is believed; once a builtin has blocked the caller its further cases use a 0.4 s ceiling, and after 60 blocked cases in one builtin/arity/mode/scope class the rest of that class is skipped and counted); plus every sequence of <= 3 (thorough <= 4) commands over {pipe a, !pipe a, pipe b, !pipe b} run in a child murex process built from the working tree which then waits 3 s (the close grace period) and must still print `alive`. Oracle: the run returns control; no 'panic caught', no 'Murex has crashed', no Go panic trace; exit number != 0 whenever stderr carries a murex error report (`Error in`); child process exits normally. non-trivial = the command reported an error or produced output on stderr (an error path was executed) or the case is a pipe sequence with at least one close",
 		Run:    run,
 		Replay: replay,
 		Shards: func(string) int { return 16 },
@@ -221,12 +221,23 @@ func firstLines(s string, n int) string {
 	return vlib.Clip(strings.Join(l, " / "), 500)
 }
 
-func evalCase(c *vlib.Ctx, k kase, n int, hung map[string]bool) {
-	if hung[k.class()] {
-		c.Extra("skipped: sibling of a case already reported as blocking the caller", 1)
+// hung counts, per builtin, the cases that left the caller blocked. The first one costs the full ceiling; after it
+// the builtin's cases run with a short ceiling and a time-out is believed at once only when crash.Handler's
+// report is on fd 2 (otherwise the case is re-run with the long ceiling). After maxHangs the remaining cases of
+// that builtin/arity/mode class are skipped and counted.
+const maxHangs = 60
+
+func evalCase(c *vlib.Ctx, k kase, n int, hung map[string]int) {
+	name := allow[k.b]
+	if hung[k.class()] >= maxHangs {
+		c.Extra("skipped: sibling of "+fmt.Sprint(maxHangs)+" cases already reported as blocking the caller", 1)
 		return
 	}
-	r, fd2 := runCase(k, 5*time.Second)
+	ceiling := 5 * time.Second
+	if hung[name] > 0 {
+		ceiling = 400 * time.Millisecond
+	}
+	r, fd2 := runCase(k, ceiling)
 	if r.Hang && !strings.Contains(fd2, "Murex has crashed") {
 		// no crash report: make sure it is not a slow machine
 		r, fd2 = runCase(k, 20*time.Second)
@@ -252,8 +263,11 @@ func evalCase(c *vlib.Ctx, k kase, n int, hung map[string]bool) {
 	c.Eval(r.Exit != 0 || r.Stderr != "" || v != nil, fmt.Sprintf("arity%d/%s/%s", len(k.args), mode, outcome))
 	if v != nil {
 		if r.Hang {
-			hung[k.class()] = true
-			c.Note("class %s: caller left blocked; its remaining cases are skipped (each would cost the full ceiling)", k.class())
+			hung[k.class()]++
+			hung[name]++
+			if hung[k.class()] == maxHangs {
+				c.Note("class %s: %d cases left the caller blocked; its remaining cases are skipped (each costs a ceiling)", k.class(), maxHangs)
+			}
 		}
 		c.Violation(v.clause, k.witness(), v.detail)
 	}
@@ -398,7 +412,7 @@ func run(c *vlib.Ctx) {
 		}
 	}
 	n := 0
-	hung := map[string]bool{}
+	hung := map[string]int{}
 	for b := range allow {
 		// all cases of one builtin go to one worker, so that "skip the siblings of a hanging case" is global
 		if !c.Mine(uint64(b)) {
@@ -444,7 +458,7 @@ func replay(c *vlib.Ctx, w string) {
 		enumerate(false, b, func(k kase) bool {
 			if k.witness() == w {
 				found = true
-				evalCase(c, k, 0, map[string]bool{})
+				evalCase(c, k, 0, map[string]int{})
 				return false
 			}
 			return true
